@@ -50,6 +50,9 @@ impl Generator {
             self.min_opcodes
         };
 
+        #[cfg(feature = "verif-hooks")]
+        super::verif::meta(self, use_frame, target_opcodes);
+
         // generation phase - allow stack to grow and build complex structures
         for _ in 0..target_opcodes {
             let valid_ops = self.get_valid_opcodes();
@@ -57,14 +60,24 @@ impl Generator {
                 // no valid moves available, move to cleanup
                 break;
             }
+            #[cfg(feature = "verif-hooks")]
+            let (verif_valid, verif_len) = (valid_ops.clone(), self.output.len());
             let chosen = self.weighted_choice(valid_ops, source);
             self.emit_and_process(chosen, source)?;
+            #[cfg(feature = "verif-hooks")]
+            super::verif::step(self, &verif_valid, chosen, verif_len);
         }
 
         // cleanup phase - reduce stack to exactly 1 item for STOP
+        #[cfg(feature = "verif-hooks")]
+        super::verif::phase(1, self);
         self.cleanup_for_stop();
 
+        #[cfg(feature = "verif-hooks")]
+        super::verif::phase(2, self);
         self.emit_opcode(OpcodeKind::Stop);
+        #[cfg(feature = "verif-hooks")]
+        super::verif::phase(0, self);
 
         // if we reserved space for FRAME, fill it in now with the correct size
         if let Some(pos) = frame_position {
@@ -83,6 +96,8 @@ impl Generator {
             self.output[pos + 1..pos + 9].copy_from_slice(&(frame_size as u64).to_le_bytes());
         }
 
+        #[cfg(feature = "verif-hooks")]
+        super::verif::done(self);
         Ok(self.output.clone())
     }
 }
